@@ -789,10 +789,10 @@ def model_term(case):
 
 
 def revs_only(case):
-    """knit target that may hold a fillable ghost: the delta-compression parents of the copied records
-    are copied too (C06's model, not this one); only the revision sets are compared.  Also: see
-    stacked_merge_commits."""
-    return (case["tgt_fmt"] != "2a" and bool(case["u"]["late"])) or bool(stacked_merge_commits(case))
+    """cases compared on revision sets only: see stacked_merge_commits.  (Before /repo be5f5d4 also knit
+    targets holding a fillable ghost: the old walk left the ghost out and the knit delta-compression
+    parents of the copied records were copied instead.)"""
+    return bool(stacked_merge_commits(case))
 
 
 def stacked_merge_commits(case):
